@@ -1,8 +1,6 @@
 package loader
 
 import (
-	"sort"
-
 	"github.com/jsightapi/jsight-schema-core/errs"
 	"github.com/jsightapi/jsight-schema-core/lexeme"
 	"github.com/jsightapi/jsight-schema-core/notations/jschema/ischema"
@@ -39,12 +37,7 @@ func CompileAllOf(rootSchema *ischema.ISchema) {
 	// In case allow is used only in types (not in the root schema).
 	// In the order of the names: which of several broken types is reported
 	// must not depend on map iteration order.
-	names := make([]string, 0, len(rootSchema.TypesList()))
-	for name := range rootSchema.TypesList() {
-		names = append(names, name)
-	}
-	sort.Strings(names)
-	for _, name := range names {
+	for _, name := range rootSchema.TypeNames() {
 		c.processType(name)
 	}
 
